@@ -18,7 +18,7 @@ META = {
         "thorough": {"evaluations": 2000000, "mon.dist": 2000000, "mon.mask_roundtrip": 50000, "mon.insitu_dist": 20000},
     },
     "exhaustive": {"quick": True, "thorough": True},
-    "space": {"quick": "all non-empty child masks x parent masks up to 8 bits x both end modes; all sequences up to length 6 and all subsequences", "thorough": "all mask pairs up to 10 bits x both modes (2.1M); all sequences up to length 8 (distinct elements, 3 alphabets) and all subsequences"},
+    "space": {"quick": "all non-empty child masks x parent masks up to 8 bits x both end modes; all sequences up to length 8 (all orders up to length 5) and all subsequences", "thorough": "all mask pairs up to 10 bits x both modes (2.1M); all sequences up to length 9 (distinct elements, 3 alphabets) and all subsequences"},
     "assumptions": ["the empty child mask is excluded, as the property states"],
     "timeout": {"quick": 420, "thorough": 3600},
 }
@@ -28,7 +28,7 @@ def plan(tier, seed):
     q = tier == "quick"
     n = 16
     specs = [{"kind": "dist", "i": i, "n": n, "bits": 8 if q else 10} for i in range(n)]
-    specs += [{"kind": "masks", "i": i, "n": 4, "maxlen": 6 if q else 8} for i in range(4)]
+    specs += [{"kind": "masks", "i": i, "n": 4, "maxlen": 8 if q else 9} for i in range(4)]
     specs += [{"kind": "insitu", "i": i, "count": 12 if q else 60} for i in range(4)]
     return specs
 
@@ -109,7 +109,7 @@ def run(ctx, spec):
         ctx.count("mon.dist", cnt)
         ctx.sample({"kind": "dist", "child": 0b1001, "parent": 0b11111, "edges": False})
     elif spec["kind"] == "masks":
-        alphabets = [list("abcdefgh"), [f"f{i}" for i in range(8)], list(range(8))]
+        alphabets = [list("abcdefghi"), [f"f{i}" for i in range(9)], list(range(9))]
         cnt = 0
         for L in range(0, spec["maxlen"] + 1):
             for ai, alpha in enumerate(alphabets):
